@@ -28,9 +28,17 @@ TRUSTED = ['CPython tokenizer/parser/compiler: which texts are valid Python and 
            'str.isprintable table of the running interpreter (coq/gen/Codegen_gen.v, regenerated each run; no '
            'theorem depends on it)']
 ASSUMPTIONS = ['theorems named _partial assume the text has no bare "\\r" (and, for the column statement, no form '
-               'feed); formula texts are valid Unicode strings (no lone surrogates)',
+               'feed); formula texts are valid Unicode strings (no lone surrogates: those make ast.parse raise '
+               'UnicodeEncodeError and cannot arrive through the UTF-8 transport)',
                'isolation of *valid-looking* bodies (accepted by ast.parse) rests on CPython: the end-to-end oracle '
-               'checks it on generated documents only']
+               'checks it on generated documents only (it finds the compile-stage, form-feed, NUL, recursion-limit and '
+               'multi-line-string findings listed in known_findings.json)',
+               'the `$name` theorem does not cover the lambda wrapping of IF/ISERR/ISERROR/IFERROR/PEEK arguments, the '
+               '"\\npass" added to a body without statements, and token streams ending in a string/comment token '
+               'whose last character is `$`',
+               'a violation whose text holds "\\r" is attributed to the "\\r" finding only when the same text with '
+               '"\\n" line ends passes the whole oracle on a fresh document; otherwise it is classified by what the '
+               '"\\n" text shows']
 TECHNIQUE = ('Coq proof over hand-written line-level models tied by differential cases (vm_compute) + end-to-end '
              'oracle through the real engine with an independent tokenize/ast reference evaluation')
 LEVEL_TEXT = ('Kernel-checked theorems for all texts about the line-level functions that place a formula into the '
